@@ -262,13 +262,19 @@ ORACLES = {
             _oracle('random rule trees over two variables (result cache on, the default)', 200, 4000, kind='rdrtree', nvars=2, rules=4,
                     depth=2, n=3),
             _oracle('random rule trees over two variables (result cache off)', 200, 4000, kind='rdrtree', nvars=2, rules=5, depth=3,
-                    n=3, caching=False)],
+                    n=3, caching=False),
+            _oracle('rule trees over two variables whose conclusions mention different subsets of the variables (result sets; a '
+                    'user-made instance of the concluded type is in the registry), cache off', 200, 4000, kind='rdrtree', nvars=2,
+                    rules=4, depth=2, n=3, subset=True, caching=False),
+            _oracle('the same, result cache on', 150, 3000, kind='rdrtree', nvars=2, rules=4, depth=2, n=3, subset=True)],
     'C14': [_oracle('registry histories: concrete / symbolic construction, clearing, no-domain queries', 300, 4000, kind='registry'),
             _oracle('registry histories without clearing, 16 steps', 100, 2000, kind='registry', clear=False, steps=16)],
     'C13': [_oracle('predicate form vs explicit query, mixed-type domains, positional and keyword fields', 250, 4000, kind='predform', allow_empty=True)],
     'C04': [_oracle('histories of full / partial / aborted evaluations (result cache on)', 200, 3000, kind='history'),
             _oracle('histories (result cache off)', 100, 1500, kind='history', caching=False),
-            _oracle('histories over a domain that lists an object twice', 100, 1500, kind='history', duplicates=True)],
+            _oracle('histories over a domain that lists an object twice', 100, 1500, kind='history', duplicates=True),
+            _oracle('rule trees evaluated three times (a user-made instance of the concluded type is in the registry)', 150, 3000,
+                    kind='rdrtree', rules=5, depth=2, evals=3)],
     'C05': [_oracle('result cache on vs off, first evaluation and re-evaluation', 250, 4000, kind='cache'),
             _oracle('result cache on vs off, literal-free conditions (the ones that hit the operator caches)', 250, 4000, kind='cache',
                     nolit=True),
